@@ -9,11 +9,12 @@ import io
 import logging
 import os
 import shutil
+import struct
 import tempfile
 
 from sim import corpus, prng
 from sim.stream import SimReadStream
-from oracles import container
+from oracles import container, foreign
 
 ID = "C01"
 LEVEL = "exploration"
@@ -33,7 +34,7 @@ ASSUMPTIONS = [
     "for WOFF2 sources the tag->bytes model of transformed tables comes from fontTools' own reconstruction",
     "the dependency closure of a touch set is an over-approximation measured on the pinned tree and widened by code reading",
 ]
-EXPECTED_PROBES = ["passthrough.no_decoder_checked", "passthrough.tables_checked", "content.tables_checked", "fixedpoint.checked", "source.short", "source.unseekable", "lazy.True"]
+EXPECTED_PROBES = ["foreign.cmap", "foreign.GPOS", "passthrough.no_decoder_checked", "passthrough.tables_checked", "content.tables_checked", "fixedpoint.checked", "source.short", "source.unseekable", "lazy.True"]
 
 TIERS = {
     "quick": {"budget_s": 170, "determinism_sample": 12, "n": {"sweep": 9000}, "minimise_s": 40, "max_minimise": 3},
@@ -119,6 +120,25 @@ def closure(tags, present):
 # ---------------------------------------------------------------------------
 
 
+_DONORS = []
+
+
+def _cmap_donors():
+    """Raw cmap subtables in formats fontTools keeps as opaque data (8, 10), from the AOTS corpus fonts."""
+    if not _DONORS:
+        for rel in corpus.binaries():
+            if "/cmap8_" in rel or "/cmap10_" in rel:
+                try:
+                    p = foreign.cmap_subtables(container.tables_of(corpus.raw(rel))["cmap"])
+                except Exception:
+                    p = None
+                if p:
+                    for d in p[1].values():
+                        if struct.unpack_from(">H", d, 0)[0] in (8, 10) and d not in _DONORS:
+                            _DONORS.append(d)
+    return _DONORS
+
+
 def _inputs():
     out = []
     for rel in corpus.binaries():
@@ -193,6 +213,8 @@ def generate(ctx, batch, idx):
         "ops": [["touch", r.randrange(1 << 16)] for _ in range({"none": 0, "one": 1, "few": r.randint(2, 5), "all": 0}[mode])],
         "probe_keys": r.random() < 0.5,
         # transplant tables the library has no decoder for (sfnt sources only)
+        # tables as another conforming writer stores them (oracles.foreign; sfnt sources only)
+        "foreign": {"cmap": r.randrange(1 << 30) if r.random() < 0.12 else None, "gpos": r.randrange(1 << 30) if r.random() < 0.12 else None},
         "opaque": [[r.choice(["ZZZZ", "Xtra", "zz  ", "TeSt"]), r.choice([0, 1, 2, 3, 4, 7, 64]), r.choice(["nuls", "random", "nul-tail"]), r.randrange(1 << 30)] for _ in range(r.choice([0, 0, 1, 2]))],
     }
 
@@ -287,6 +309,30 @@ def _execute(ctx, h, scratch):
             probes["opaque_tables_transplanted"] = 1
         except Exception:
             pass
+    foreign_tags = []
+    fg = h.get("foreign") or {}
+    if (fg.get("cmap") is not None or fg.get("gpos") is not None) and container.kind_of(src) == "sfnt":
+        try:
+            tabs = dict(container.tables_of(src))
+            if fg.get("cmap") is not None and "cmap" in tabs:
+                c = foreign.cmap_multiplex(tabs["cmap"], _cmap_donors(), prng.sub("fcmap", fg["cmap"]))
+                if c is not None:
+                    tabs["cmap"] = c
+                    foreign_tags.append("cmap")
+            if fg.get("gpos") is not None and "maxp" in tabs and len(tabs["maxp"]) >= 6:
+                g = foreign.gpos_unsorted(struct.unpack_from(">H", tabs["maxp"], 4)[0], prng.sub("fgpos", fg["gpos"]))
+                if g is not None:
+                    tabs["GPOS"] = g[0]
+                    foreign_tags.append("GPOS")
+            if foreign_tags:
+                fsrc = container.rebuild_sfnt(src[:4], tabs)
+                if container.validate_any(fsrc)[2]:
+                    raise AssertionError("foreign variant is not a valid container")
+                src = fsrc
+                for t in foreign_tags:
+                    probes["foreign." + t.strip()] = 1
+        except (struct.error, KeyError, IndexError, ValueError):
+            foreign_tags = []  # a source whose own directory / cmap the independent reader cannot follow
     try:
         model, ckind = _model(src, member)
     except Exception as e:
@@ -337,6 +383,12 @@ def _execute(ctx, h, scratch):
                 else:
                     font[t]
                 touched.append(t)
+            if h["mode"] != "none":
+                for t in foreign_tags:
+                    tb = font[t]
+                    if hasattr(tb, "ensureDecompiled"):
+                        tb.ensureDecompiled()
+                    touched.append(t)
     except Exception as e:
         # a table of a corpus font that cannot be decoded: not a recompile case (C20's business)
         events.append(["undecodable", type(e).__name__])
@@ -398,6 +450,7 @@ def _execute(ctx, h, scratch):
             sample = [t for t in sample if t not in RECALCULATED]
         if len(sample) > 4:
             sample = prng.sub("content", prng.digest(h)).sample(sample, 4)
+        sample += [t for t in foreign_tags if t in loaded and t not in sample]
         for t in sample:
             if model[t] == got.get(t):
                 probes["content.byte_identical"] = probes.get("content.byte_identical", 0) + 1
@@ -476,4 +529,13 @@ def simplify(ctx, h):
     if h.get("lazy") is not None:
         c = copy.deepcopy(h)
         c["lazy"] = None
+        yield c
+    for k in ("cmap", "gpos"):
+        if (h.get("foreign") or {}).get(k) is not None:
+            c = copy.deepcopy(h)
+            c["foreign"][k] = None
+            yield c
+    if h.get("opaque"):
+        c = copy.deepcopy(h)
+        c["opaque"] = []
         yield c
